@@ -21,18 +21,30 @@ from harness import dw
 PROPERTY = 'C03'
 
 
-def _trees_refining_initial(npts, lmax0):
-    """Binary trees with npts points that contain the complete tree of depth lmax0 (as dyadic coordinate sets)."""
+_CACHE = {}
+
+
+def _trees_refining_initial(npts, lmax0, onesided=False):
+    """Binary trees with npts points that contain the complete tree of depth lmax0 (as dyadic coordinate sets).
+    onesided: all additional points lie inside ONE interval of the initial tree (strongly local refinement)."""
+    key = (npts, lmax0, onesided)
+    if key in _CACHE:
+        return _CACHE[key]
     out = []
-    base = set(i / 2 ** lmax0 for i in range(2 ** lmax0 + 1))
+    base = sorted(i / 2 ** lmax0 for i in range(2 ** lmax0 + 1))
     for t in lib.all_trees(npts):
         xs = lib.dyadic_coords(t, 0.0, 1.0)
-        if base <= set(xs):
+        if set(base) <= set(xs):
+            if onesided:
+                extra = [x for x in xs if x not in base]
+                if extra and not any(all(base[i] < x < base[i + 1] for x in extra) for i in range(len(base) - 1)):
+                    continue
             out.append((t, xs))
+    _CACHE[key] = out
     return out
 
 
-def state(S, npts, lmin, lmax0, version, boundary, box=(0.0, 1.0), out_len=1):
+def state(S, npts, lmin, lmax0, version, boundary, box=(0.0, 1.0), out_len=1, onesided=False):
     d = len(npts)
     SD, GO, G, EC, RO, RC = dw.mods()
     a = [box[0]] * d
@@ -40,7 +52,7 @@ def state(S, npts, lmin, lmax0, version, boundary, box=(0.0, 1.0), out_len=1):
     f = lib.make_function(S, 'F', d, out_len)
     xs, lv = [], []
     for k in range(d):
-        cands = _trees_refining_initial(npts[k], lmax0)
+        cands = _trees_refining_initial(npts[k], lmax0, onesided)
         c = S.choice('tree%d' % k, len(cands))
         t, x01 = cands[c]
         lv.append(list(t))
@@ -73,7 +85,7 @@ def history(S, d, lmin, lmax0, version, boundary, rebalancing, k, max_sel, box=(
 
 BOUNDS = {
     'quick': {'state: (points per dim, lmin, lmax0)': [((6, 5), 1, 2), ((7, 5), 1, 2), ((6, 6), 1, 2), ((9, 9), 1, 3), ((10, 9), 1, 3), ((10, 9), 2, 3)],
-              'versions': [6, 2, 3, 7, 8], 'boundary': [True, False], 'history': 'd=2, (lmin,lmax0)=(1,2), k<=2 steps, <=2 selected intervals per step (or all), rebalancing on/off'},
+              'one-sided states': '8x8 points (all extra points inside one initial interval per dimension), versions 6,7', 'versions': [6, 2, 3, 7, 8], 'boundary': [True, False], 'history': 'd=2, (lmin,lmax0)=(1,2), k<=2 steps, <=2 selected intervals per step (or all), rebalancing on/off'},
     'thorough': {'state: (points per dim, lmin, lmax0)': [((6, 5), 1, 2), ((7, 5), 1, 2), ((6, 6), 1, 2), ((7, 6), 1, 2), ((7, 7), 1, 2), ((8, 5), 1, 2), ((9, 9), 1, 3),
                                                            ((10, 9), 1, 3), ((10, 10), 1, 3), ((11, 9), 1, 3), ((10, 9), 2, 3), ((10, 10), 2, 3), ((6, 5, 5), 1, 2), ((6, 6, 5), 1, 2)],
                  'versions': [6, 2, 3, 7, 8], 'boundary': [True, False],
@@ -113,6 +125,14 @@ def jobs(tier):
                 js.append(Job('state[pts=%s,l=%d-%d,v=%d,%s]' % ('x'.join(map(str, npts)), lmin, lmax0, version, 'b' if boundary else 'nb'), state,
                               {'npts': list(npts), 'lmin': lmin, 'lmax0': lmax0, 'version': version, 'boundary': boundary, 'box': list(box), 'out_len': out_len},
                               validate=(7 if tier == 'quick' else 3)))
+    # strongly one-sided states (all extra points inside one initial interval, in every dimension): deep local refinement next to
+    # shallow sub-trees, which bounded histories reach only after many steps
+    for (npts, lmin, lmax0) in ([((8, 8), 1, 2)] if tier == 'quick' else [((8, 8), 1, 2), ((9, 8), 1, 2), ((11, 11), 1, 3), ((7, 7, 6), 1, 2)]):
+        for version in ((6, 7) if tier == 'quick' else (6, 7, 8, 2, 3)):
+            for boundary in ((True,) if tier == 'quick' else (True, False)):
+                js.append(Job('state-onesided[pts=%s,l=%d-%d,v=%d,%s]' % ('x'.join(map(str, npts)), lmin, lmax0, version, 'b' if boundary else 'nb'), state,
+                              {'npts': list(npts), 'lmin': lmin, 'lmax0': lmax0, 'version': version, 'boundary': boundary, 'box': [0.0, 1.0], 'out_len': 1, 'onesided': True},
+                              validate=(29 if tier == 'quick' else 11), budget_s=(600 if tier == 'quick' else 3000)))
     hist = [(2, 1, 2, 2)] if tier == 'quick' else [(2, 1, 2, 3), (2, 1, 3, 2), (2, 2, 3, 2), (3, 1, 2, 2)]
     for (d, lmin, lmax0, k) in hist:
         for version in b['versions']:
